@@ -80,6 +80,28 @@ func init() {
 		}
 		return nil
 	}
+	sortFunc := func(fr *frame, args []value) value {
+		x, _ := args[0].([]value)
+		cmp := args[1]
+		for i := 1; i < len(x); i++ {
+			for j := i; j > 0; j-- {
+				r := call(theInterp, fr, 0, cmp, []value{x[j], x[j-1]})
+				if asInt64(r) >= 0 {
+					break
+				}
+				theInterp.logStore(&x[j])
+				theInterp.logStore(&x[j-1])
+				x[j], x[j-1] = x[j-1], x[j]
+			}
+		}
+		return nil
+	}
+	for _, n := range []string{"slices.SortFunc[", "slices.SortStableFunc["} {
+		prefixExternals = append(prefixExternals, struct {
+			prefix, suffix string
+			fn             externalFn
+		}{n, "]", sortFunc})
+	}
 	for _, n := range []string{"slices.Sort[", "slices.SortStable["} {
 		prefixExternals = append(prefixExternals, struct {
 			prefix, suffix string
